@@ -148,15 +148,13 @@ Definition check_api_nil_calls : bool :=
 Definition expected_discarded : list (string * string * string * nat) :=
   [ (* Refund: both Convert errors blanked; arguments were validated by the caller *)
     ("conversions.Refund", "conversions.Convert", "blank", 2);
-    (* rejected / invalid holding batches: SetTransactionHistoryExecuted(-2 | -2 | rejectCode) as bare calls *)
-    ("node.Pegnetd.ApplyTransactionBatchesInHolding", "pegnet.Pegnet.SetTransactionHistoryExecuted", "blank", 3);
-    (* insufficient balance: SetTransactionHistoryExecuted(-1) as a bare call *)
-    ("node.Pegnetd.ApplyTransactionBlock", "pegnet.Pegnet.SetTransactionHistoryExecuted", "blank", 1);
-    (* the two bare d.NullifyBurnAddress(ctx, tx, h) calls at the two activation heights *)
+    (* a held batch that fails re-validation is marked rejected (-2); the validation error itself is
+       deliberately not returned (the error of the status update is: fixed, see known_findings) *)
+    ("node.Pegnetd.ApplyTransactionBatchesInHolding", "fat2.TransactionBatch.ValidatePegTx", "wrong-var", 1);
+    ("node.Pegnetd.ApplyTransactionBatchesInHolding", "fat2.TransactionBatch.Validate", "wrong-var", 1);
+    (* the two bare d.NullifyBurnAddress(ctx, tx, h) calls at the two activation heights: KNOWN FINDING C10 *)
     ("node.Pegnetd.DBlockSync", "node.Pegnetd.NullifyBurnAddress", "blank", 2);
-    (* failed Commit: logged, Synced decremented, Rollback (which then fails fatally); the branch itself falls through *)
-    ("node.Pegnetd.DBlockSync", "sql.Tx.Commit", "logged", 1);
-    (* addr, err := NewFAAddress(dev.DevAddress) immediately followed by _, err = AddToBalance(...) *)
+    (* addr, err := NewFAAddress(dev.DevAddress) immediately followed by _, err = AddToBalance(...): constant addresses *)
     ("node.Pegnetd.DevelopersPayouts", "factom.NewFAAddress", "overwritten", 1);
     (* only sql.ErrNoRows falls through (below genesis); every other error is returned *)
     ("node.Pegnetd.Grade", "pegnet.Pegnet.SelectPreviousWinners", "logged", 1);
@@ -165,34 +163,21 @@ Definition expected_discarded : list (string * string * string * nat) :=
     ("node.Pegnetd.GradeS", "graderStake.BlockGrader.AddSPR", "logged", 1);
     (* constant burn addresses: error only logged (old and new address) *)
     ("node.Pegnetd.NullifyBurnAddress", "factom.NewFAAddress", "logged", 2);
-    (* SelectBalances on the pool: error only logged, balances stays nil, zero is subtracted *)
+    (* inside NullifyBurnAddress: KNOWN FINDING C10 (same call site family as the discarded result) *)
     ("node.Pegnetd.NullifyBurnAddress", "pegnet.Pegnet.SelectBalances", "logged", 1);
-    (* SubFromBalance: error only logged (the txErr result is blanked as well), loop goes on *)
     ("node.Pegnetd.NullifyBurnAddress", "pegnet.Pegnet.SubFromBalance", "logged", 1);
-    ("node.Pegnetd.NullifyMintedTokens", "pegnet.Pegnet.SelectBalances", "logged", 1);
     (* err_s of GradeS is looked at only in the branch height >= V20HeightActivation *)
     ("node.Pegnetd.SyncBlock", "node.Pegnetd.GradeS", "unchecked", 1);
-    (* if errRate != nil { return err }  -- err is nil there *)
+    (* if errRate != nil { return err }  -- err is nil there: KNOWN FINDING C12 (closed era) *)
     ("node.Pegnetd.SyncBlock", "node.Pegnetd.GetAssetRates|node.Pegnetd.GetAssetRatesV0", "wrong-var", 1);
-    (* rates, err = SelectPendingRates(height-1) and rates, _, err = SelectMostRecentRatesBeforeHeight(...)
-       in the snapshot branch: err is never looked at before it is assigned again or the function ends *)
-    ("node.Pegnetd.SyncBlock", "pegnet.Pegnet.SelectPendingRates", "overwritten", 1);
-    ("node.Pegnetd.SyncBlock", "pegnet.Pegnet.SelectPendingRates", "unchecked", 1);
-    ("node.Pegnetd.SyncBlock", "pegnet.Pegnet.SelectMostRecentRatesBeforeHeight", "overwritten", 1);
-    ("node.Pegnetd.SyncBlock", "pegnet.Pegnet.SelectMostRecentRatesBeforeHeight", "unchecked", 1);
-    (* DevelopersPayouts error: only traced *)
-    ("node.Pegnetd.SyncBlock", "node.Pegnetd.DevelopersPayouts", "logged", 1);
     (* first pass of applyTransactionBatch: a Convert error makes the function return nil (batch silently not applied) *)
     ("node.Pegnetd.applyTransactionBatch", "conversions.Convert", "dropped", 1);
     (* constant burn address: error only logged *)
     ("node.Pegnetd.recordBatch", "factom.NewFAAddress", "logged", 1);
     (* pegAmt, _ := Convert(...): "caught earlier" *)
-    ("node.Pegnetd.recordPegnetRequests", "conversions.Convert", "blank", 1);
-    (* a database error while looking up the top-100 list reads as "not included": the SPR is ignored *)
-    ("pegnet.Pegnet.IsIncludedTopPEGAddress", "sql.DB.Query", "dropped", 1);
-    ("pegnet.Pegnet.IsIncludedTopPEGAddress", "sql.Rows.Scan", "dropped", 1);
-    (* if rows.Err() != nil { return nil, 0, err }  -- err is nil there *)
-    ("pegnet.Pegnet.SelectMostRecentRatesBeforeHeight", "sql.Rows.Err", "wrong-var", 1) ].
+    ("node.Pegnetd.recordPegnetRequests", "conversions.Convert", "blank", 1) ].
+
+
 
 Definition disc_key (r : string * string * string * string) : string * string * string :=
   match r with (f, c, h, _) => (f, c, h) end.
@@ -303,11 +288,11 @@ Definition conflicting_fields : list string :=
   filter (fun f => existsb (fun a => existsb (fun b => (fld_name a =? f) && unprotected_pair a b) shared_fields) shared_fields)
          expected_sync_written_fields.
 
-(* As the code stands no access is protected at all: the discipline "every field reachable from both
-   roots is accessed under a common mutex" does not hold for any of the four fields. The check records
-   exactly which fields are in conflict, so that adding a mutex (or a new unprotected field) shows. *)
-Definition expected_conflicting_fields : list string :=
-  [ "BlockSync.Synced"; "Pegnetd.LastAverages"; "Pegnetd.LastAveragesData"; "Pegnetd.LastAveragesHeight" ].
+(* After the repairs (known_findings: average cache mutex, sync height published atomically after
+   COMMIT) the discipline "every field written by one root and accessed by the other is accessed
+   under a common mutex or through sync/atomic" holds for all four fields: no conflict is left.
+   A new unprotected access, or a removed lock, makes the list non-empty again. *)
+Definition expected_conflicting_fields : list string := [].
 
 Definition check_conflicting_fields : bool :=
   subset conflicting_fields expected_conflicting_fields && subset expected_conflicting_fields conflicting_fields.
